@@ -177,6 +177,7 @@ def execute(c, tag='', int_data=False):
     def run():
         fr = make_frame(c.T, c.Fc, c.asc, df, dt, fch1)
         # the frame's own time axis need not start at 0 (cadences shift it; users may too): arbitrary origin
+        _ = (fr.ts_ext, fr.t_stop)          # derived values read before the shift must not stick
         fr.ts = fr.ts + Sym(z3.Real(f't_origin{tag}'))
         before = dict(fs=list(fr.fs), ts=list(fr.ts), shape=fr.shape, noise=(fr.noise_mean, fr.noise_std),
                       meta=dict(fr.metadata), rng=fr.rng, rng_state=str(fr.rng.bit_generator.state),
@@ -307,6 +308,7 @@ def replay_add_signal(p):
     fr = stg.Frame(fchans=c['Fc'], tchans=c['T'], df=p['df'], dt=p['dt'], fch1=p['fch1'], ascending=c['asc'], seed=1)
     D = np.array(p['D'], dtype=float)
     fr.data = D.copy()
+    _ = (fr.ts_ext, fr.t_stop)
     fr.ts = fr.ts + p.get('t_origin', 0.0)
     fs0, ts0 = fr.fs.copy(), fr.ts.copy()
     state0 = str(fr.rng.bit_generator.state)
